@@ -345,3 +345,50 @@ func ZZ_C19() {
 		check()
 	}
 }
+
+// ZZ_C19_Many: "a member that joins later learns all active actors" with many of them. Member 0 knows M active
+// actors (its agent's table is filled directly: M activations through the protocol would only repeat what the
+// history harness checks); member 1 joins; once member 0's notifications have been delivered, member 1 resolves
+// every one of the M ids to the same PID. One concrete history; M is the bound.
+func ZZ_C19_Many() {
+	M := zzrt.Param("M")
+	nodes := make([]*zzNode, 2)
+	for i := range nodes {
+		n := &zzNode{up: true}
+		id, addr := "m"+string(rune('0'+i)), "node:"+string(rune('0'+i))
+		n.c, n.ze = zzCluster(id, addr)
+		n.c.kinds = append(n.c.kinds, newKind("a", func() actor.Receiver { return &zzActivated{n} }, NewKindConfig()))
+		n.a = zzAgent(n.c)
+		n.ze.RegisterProc("cluster/"+id, &zzAgentProc{n})
+		n.res = n.ze.Register("res/0")
+		nodes[i] = n
+	}
+	for _, n := range nodes {
+		n.net = &zzNet{addr: n.c.agentPID.Address, nodes: nodes}
+		n.ze.SetRemote(n.net)
+	}
+	a0, a1 := nodes[0], nodes[1]
+	a0.a.Receive(actor.ZZContext(a0.ze.E, a0.c.agentPID, &Members{Members: []*Member{a0.c.Member()}}, nil))
+	ids := make([]string, M)
+	for k := 0; k < M; k++ {
+		d := []byte{byte('0' + k/100%10), byte('0' + k/10%10), byte('0' + k%10)}
+		ids[k] = "a/p" + string(d)
+		a0.a.activated[ids[k]] = actor.NewPID("node:0", ids[k])
+	}
+	both := []*Member{a0.c.Member(), a1.c.Member()}
+	a0.a.Receive(actor.ZZContext(a0.ze.E, a0.c.agentPID, &Members{Members: both}, nil))
+	a1.a.Receive(actor.ZZContext(a1.ze.E, a1.c.agentPID, &Members{Members: both}, nil))
+	for _, n := range nodes {
+		for len(n.q) > 0 {
+			g := n.q[0]
+			n.q = n.q[1:]
+			n.a.Receive(actor.ZZContext(n.ze.E, n.c.agentPID, g.Msg, g.Sender))
+		}
+	}
+	for k := 0; k < M; k++ {
+		pid := a1.a.activated[ids[k]]
+		zzrt.Assert(pid != nil && pid.Address == "node:0" && pid.ID == ids[k], "C19:joiner-does-not-learn-every-active-actor")
+	}
+	zzrt.Assert(len(a1.a.activated) == M, "C19:joiner-learns-actors-that-are-not-active")
+	zzrt.Reach("joiner-learned-many-active-actors")
+}
